@@ -550,6 +550,11 @@ int disasm_dspic(
           snprintf(instruction, length, "%s w%d, w%d", table_dspic[n].name, w, d);
           return 4;
         case OP_A_WX_WY_AWB:
+          if ((opcode & 0x3) == 3)
+          {
+            n++;
+            continue;
+          }
           a = (opcode >> 15) & 0x1;
           snprintf(instruction, length, "%s %c", table_dspic[n].name, accum[a]);
           parse_dsp(instruction, opcode, 1);
@@ -557,6 +562,11 @@ int disasm_dspic(
         case OP_N_WM_WN_ACC_WX_WY:
           a = (opcode >> 15) & 0x1;
           d = (opcode >> 16) & 0x7;
+          if ((d & 0x3) == 3)
+          {
+            n++;
+            continue;
+          }
           snprintf(instruction, length, "%s.n %s, %c", table_dspic[n].name, mmm_table[d], accum[a]);
           parse_dsp(instruction, opcode, 0);
           return 4;
@@ -570,6 +580,11 @@ int disasm_dspic(
           //if ((opcode & 0x3)<2) { continue; }
           a = (opcode >> 15) & 0x1;
           d = (opcode >> 16) & 0x7;
+          if ((d & 0x3) == 3)
+          {
+            n++;
+            continue;
+          }
           snprintf(instruction, length, "%s %s, %c", table_dspic[n].name, mmm_table[d], accum[a]);
           parse_dsp(instruction, opcode, 0);
           return 4;
@@ -587,6 +602,11 @@ int disasm_dspic(
         case OP_WM_WN_ACC_WX_WY_AWB:
           a = (opcode >> 15) & 0x1;
           d = (opcode >> 16) & 0x7;
+          if ((d & 0x3) == 3 || (opcode & 0x3) == 3)
+          {
+            n++;
+            continue;
+          }
           snprintf(instruction, length, "%s %s, %c", table_dspic[n].name, mmm_table[d], accum[a]);
           parse_dsp(instruction, opcode, 1);
           break;
